@@ -155,11 +155,27 @@ Widen(prog, sz, fuel) ==
           ELSE IF fuel = 0 THEN [must |-> "either", sizes |-> sz, addrs |-> ad, bad |-> {}]
           ELSE Widen(prog, nz, fuel - 1)
 RefLayout(prog) == Widen(prog, [k \in DOMAIN prog |-> 0], 12)
+\* The same iteration taking, for every statement, the LONGEST of its interchangeable encodings (extended where direct would do, 16-bit offsets ...).
+\* A program that is valid under the narrowest layout but holds a statement that cannot be encoded under the widest one (a label pushed past $FF
+\* that is then used with <, or past a short branch's reach) is accepted or rejected according to width choices the property leaves open: "either".
+MaxLen(S) == CHOOSE n \in {Len(e) : e \in S} : \A m \in {Len(e) : e \in S} : n >= m
+RECURSIVE WidenMax(_, _, _)
+WidenMax(prog, sz, fuel) ==
+  LET envq == EnvOf(prog, [k \in DOMAIN prog |-> 0])
+      ad == AddrFrom(prog, envq, sz, 1, 0)
+      env == EnvOf(prog, ad)
+      labs == Labels(prog)
+      st == [k \in DOMAIN prog |-> Acceptable(prog[k], env, ad[k], DpsAt(prog, env, k), labs)]
+  IN IF \E k \in DOMAIN prog : st[k].must = "reject" THEN "reject"
+     ELSE IF \E k \in DOMAIN prog : st[k].must = "raw" THEN "either"
+     ELSE LET nz == [k \in DOMAIN prog |-> Max2(sz[k], MaxLen(st[k].encs))] IN
+          IF nz = sz THEN "accept" ELSE IF fuel = 0 THEN "either" ELSE WidenMax(prog, nz, fuel - 1)
 \* what the property demands of the outcome for this program
 Must(prog) == IF DupAt(prog) # {} \/ UndefAt(prog) # {} THEN "reject"
               ELSE LET r == RefLayout(prog) IN
                    IF r.must = "reject" THEN "reject" ELSE IF ~Plain(prog) THEN "either"
                    ELSE IF \E k \in DOMAIN prog : r.addrs[k] + r.sizes[k] > 65536 THEN "either"      \* runs past the 64 KiB address space
+                   ELSE IF r.must = "accept" /\ WidenMax(prog, r.sizes, 12) # "accept" THEN "either"     \* validity depends on interchangeable width choices
                    ELSE r.must
 
 \* ------------------------------------------------------------------ class lattice of a statement
